@@ -109,7 +109,79 @@ func lbGenSteps(r *core.Rand, n int, focus string) []lbStep {
 	return out
 }
 
+// lbWarm is the scenario of the worker's k-th warm-up run (core.WorkerMain runs
+// gen(core.Mix(0x77a2, k)) before the reported runs so that lazily initialised
+// process-global state never falls into a reported run). A random scenario may
+// well fail every RPC before it reaches the server, so the warm-up scenarios
+// are fixed and walk through everything the generators can produce: RPCs that
+// succeed with data in both directions, policy and transparent retries, every
+// kind of pick result, cancellation, deadlines, GOAWAY, idle mode and a second
+// policy instance, watchers with and without timeouts.
+func lbWarm(seed uint64, k int) *Scenario {
+	_, s := genBase(seed, "quick")
+	s.Net = simnet.Cfg{Seed: core.Mix(seed, 21)}
+	s.Sched.YieldThr = 200
+	s.Oracles = []string{"status_error"}
+	s.Target = "simres:///x"
+	s.Listeners = []string{"srv1"}
+	ms := int64(1000000)
+	ok := []Op{{Op: "send_header"}, {Op: "recv_all"}, {Op: "send", N: 10}, {Op: "send", N: 30000}}
+	fail := []Op{{Op: "return", Code: 14, Msg: "try again"}}
+	full := []Op{{Op: "send", N: 100}, {Op: "header"}, {Op: "send", N: 20000}, {Op: "close_send"}, {Op: "recv_all"}}
+	short := []Op{{Op: "close_send"}, {Op: "recv_all"}}
+	s.RPCs = []RPC{
+		{ID: 1, DeadlineNs: 1000 * ms, Client: full, Server: [][]Op{ok}},
+		{ID: 2, WaitReady: true, DeadlineNs: 1000 * ms, Client: short, Server: [][]Op{fail, {{Op: "send", N: 5}}}},
+		{ID: 3, StartNs: 1 * ms, Client: []Op{{Op: "send", N: 5}, {Op: "cancel"}, {Op: "recv_all"}}, Server: [][]Op{{{Op: "sleep", Ns: 10 * ms}}}},
+		{ID: 4, StartNs: 2 * ms, DeadlineNs: 1 * ms, Client: short, Server: [][]Op{{{Op: "sleep", Ns: 5 * ms}}}},
+		{ID: 5, StartNs: 20 * ms, DeadlineNs: 100 * ms, Client: short, Server: [][]Op{ok}},
+		{ID: 6, StartNs: 30 * ms, DeadlineNs: 100 * ms, Client: short, Server: [][]Op{ok}},
+		{ID: 7, StartNs: 30 * ms, DeadlineNs: 100 * ms, WaitReady: true, Client: full, Server: [][]Op{ok}},
+		{ID: 8, StartNs: 40 * ms, DeadlineNs: 100 * ms, Client: short, Server: [][]Op{{{Op: "return", Code: 10, Msg: "scripted"}}}},
+		{ID: 9, StartNs: 41 * ms, DeadlineNs: 2 * ms, Client: short, Server: [][]Op{ok}},
+		{ID: 10, StartNs: 300 * ms, DeadlineNs: 100 * ms, Client: full, Server: [][]Op{fail, fail, ok}},
+	}
+	steps := []lbStep{
+		{AtNs: 15 * ms, Op: "spec", Spec: []string{"st:5"}},
+		{AtNs: 10 * ms, Op: "spec", Spec: []string{"err"}},
+		{AtNs: 10 * ms, Op: "spec", Spec: []string{"nosc", "notready", "shut"}},
+		{AtNs: 10 * ms, Op: "spec", Spec: []string{"lazy", "ready", "any", "ready_nodone"}},
+		{AtNs: 5 * ms, Op: "shutdown", SC: 1},
+		{AtNs: 5 * ms, Op: "newsc", SC: 1},
+		{AtNs: 1 * ms, Op: "state", State: 4},
+		{AtNs: 0, Op: "state", State: 2},
+		{AtNs: 0, Op: "state"},
+		{AtNs: 1 * ms, Op: "connect", SC: 2},
+		{AtNs: 1 * ms, Op: "publish"},
+	}
+	inst := lbInstCfg{AutoConnect: true, Reactive: true, ShutOnClose: true, Spec: []string{"lazy"}, Steps: steps}
+	lazy := lbInstCfg{Reactive: true, Spec: []string{"lazy"}}
+	cfg := lbCfg{Seed: core.Mix(seed, 31), Addrs: []string{"srv0", "srv1", "dead0"}, Insts: []lbInstCfg{inst, lazy},
+		Retry:    &lbRetryCfg{MaxAttempts: 3, Codes: []string{"UNAVAILABLE"}, BackoffNs: 1000},
+		Watchers: []lbWatchCfg{{}, {States: []int{3, 0, 1}, TimeoutNs: 3 * ms, Timeouts: 4}},
+		Cancels:  []lbCancelCfg{{RPC: 9, AtNs: 1 * ms}},
+	}
+	s.Actions = []Action{{AtNs: 60 * ms, Kind: "connect"}, {AtNs: 61 * ms, Kind: "reset_backoff"}}
+	switch k % 3 {
+	case 0:
+		s.Actions = append(s.Actions, Action{AtNs: 350 * ms, Kind: "graceful_stop"})
+	case 1:
+		s.Faults = []simnet.Fault{{Kind: "reset", Conn: 0, Dir: "both", AtNs: 45 * ms}, {Kind: "cut_after", Conn: 1, Dir: "c2s", Bytes: 200}}
+		s.Actions = append(s.Actions, Action{AtNs: 350 * ms, Kind: "stop"})
+	default:
+		s.Client.IdleNs = 20 * ms
+		s.Faults = []simnet.Fault{{Kind: "dial_fail", Conn: 0}, {Kind: "dial_hang", Conn: 3}}
+	}
+	s.Ext = map[string]json.RawMessage{"lb": ExtJSON(cfg)}
+	return s
+}
+
 func lbGen(seed uint64, tier string, focus string) *Scenario {
+	for k := 0; k < core.Warmups; k++ {
+		if seed == core.Mix(0x77a2, uint64(k)) {
+			return lbWarm(seed, k)
+		}
+	}
 	r, s := genBase(seed, tier)
 	s.Oracles = []string{"status_error"}
 	s.Target = "simres:///x"
